@@ -305,6 +305,9 @@ pub fn parse(file: &[u8], strict: bool) -> Result<View, String> {
         }
     }
     let meta = if h.meta_len == 0 {
+        if strict {
+            return Err("the metadata section is empty: it must hold a JSON object".into());
+        }
         serde_json::Map::new()
     } else {
         let raw = codec_decompress(h.icomp, window(file, h.meta_off, h.meta_len, "metadata")?)?;
